@@ -92,4 +92,34 @@ Section Format.
     encode f (r_fields (r_save c s)).
   Definition r_read (O : NumOps T) (f : format) (c : @rcfg T) (file : list item) : @rstate T :=
     r_load O c (r_of_fields (decode f file)).
+
+  (* ---- ABMD: refValue, stoppingValue, forceConstant, decreasing ---- *)
+  Definition a_fields (v : T * (T * T * bool)) : list field :=
+    [(0%nat, [VNum (fst v)]); (1%nat, [VNum (fst (fst (snd v)))]); (2%nat, [VNum (snd (fst (snd v)))]);
+     (3%nat, [VInt (if snd (snd v) then 1 else 0)])].
+  Definition a_of_fields (d : T) (fs : list field) : T * (T * T * bool) :=
+    (opt (bind (lookup 0 fs) as_num) d,
+     (opt (bind (lookup 1 fs) as_num) d, opt (bind (lookup 2 fs) as_num) d,
+      match bind (lookup 3 fs) as_int with Some z => negb (z =? 0) | None => false end)).
+
+  (* ---- a variable with an extended coordinate: x, extended_x, extended_v ---- *)
+  Definition x_fields (v : T * T * T) : list field :=
+    [(0%nat, [VNum (fst (fst v))]); (1%nat, [VNum (snd (fst v))]); (2%nat, [VNum (snd v)])].
+  Definition x_of_fields (d : T) (fs : list field) : T * T * T :=
+    (opt (bind (lookup 0 fs) as_num) d, opt (bind (lookup 1 fs) as_num) d, opt (bind (lookup 2 fs) as_num) d).
+
+  (* ---- the module's `configuration` block: step ---- *)
+  Definition m_fields (k : Z) : list field := [(0%nat, [VInt k])].
+  Definition m_of_fields (fs : list field) : Z := opt (bind (lookup 0 fs) as_int) 0.
+
+  (* ---- a grid written as the list of its values in the order of colvar_grid::incr (histogram; ABF samples):
+     the payload of one keyword; what is read back is the list ---- *)
+  Definition grid_field (k : nat) (vals : list Z) : list field := [(k, map VInt vals)].
+  Fixpoint as_ints (vs : list value) : option (list Z) :=
+    match vs with
+    | [] => Some []
+    | VInt z :: r => match as_ints r with Some l => Some (z :: l) | None => None end
+    | _ => None
+    end.
+  Definition grid_of_fields (k : nat) (fs : list field) : option (list Z) := bind (lookup k fs) as_ints.
 End Format.
